@@ -12,7 +12,7 @@ import (
 var Rules = []report.Rule{
 	{ID: "V1", Floor: 1000, Props: []string{"C03", "C04", "C10", "C09"}, Text: "every user call lies in exactly one job closure, at its top nesting level, each user function is called from exactly one site, and the directive contains no go statement (the worker's per-job gates - context not done, not invalidated - and its panic guard apply to exactly that call)"},
 	{ID: "V2", Floor: 1000, Props: []string{"C04", "C11", "C07", "C10"}, Text: "every job closure has a named error result and, registered before any user call or return, exactly one deferred function calling recover() directly that routes a non-nil value into &cff.PanicError{Value: recovered} (or fallback / predicate hand-over read by the gated task's handler) and never re-panics"},
-	{ID: "V3", Floor: 1000, Props: []string{"C07", "C08"}, Text: "the user function's error is assigned to the closure's named result and reaches the return unchanged (no wrapping, no overwrite outside handler/fallback)"},
+	{ID: "V3", Floor: 1000, Props: []string{"C07", "C08", "C10"}, Text: "the user function's error is assigned to the closure's named result and reaches the return unchanged (no wrapping, no overwrite outside handler/fallback)"},
 	{ID: "V4", Floor: 1000, Props: []string{"C09"}, Text: "ctx is defined once from the directive's context argument; every Enqueue and Wait gets it; ctx-taking user functions get the job's context parameter; no context constructor"},
 	{ID: "V5", Floor: 1000, Props: []string{"C01", "C02", "C11", "C12"}, Text: "every variable written inside a job closure has that job as its only writer; every job reading it has the writer among its transitive Dependencies; the caller reads it only after Wait() == nil (never from a deferred function); variables read by jobs are not written by the caller after the job's Enqueue"},
 	{ID: "V6", Floor: 1000, Props: []string{"C02"}, Text: "a flow task/predicate call passes [ctx +] one distinct directive-level variable per parameter and assigns one directive-level variable per result [+ err], outside any loop"},
